@@ -279,6 +279,8 @@ class H:
                 b = "answer"
             else:
                 return self.term(spec, c)
+        if isinstance(b, dict) and "const" in b:
+            return canon(b["const"])
         if isinstance(b, dict) and "py" in b:
             from hypergraph import END
 
